@@ -155,7 +155,7 @@ func main() {
 		Name: "c21",
 		Rule: "programs (<= ~25 nodes) generated type-directed over int/pair/higher-order builtins: calls, lambdas (nested, shadowing, called directly, passed, returned), partial applications at several levels, calls of calls, pipelines; 1 in 4 gets one ill-typing edit (replace / drop / add / swap argument, unbound symbol, literal as function); templates for the MaxArgs boundary and for closures outliving their activation. non-trivial = contains a lambda, a partial application, a call of a call or >= 29 parameters; distinct = by hash of the program text",
 		Quick:    4000,
-		Thorough: 150000,
+		Thorough: 60000,
 		Corpus: func(c *hx.Ctx) {
 			for i, p := range corpus() {
 				runProgram(c, fmt.Sprintf("corpus %d", i), p, map[string]bool{"lambda": true}, "")
